@@ -4,6 +4,11 @@ import json, os
 V = os.path.dirname(os.path.dirname(os.path.abspath(__file__)))
 ALL = ["C%02d" % i for i in range(1, 21)]
 CHECKS = {
+ "C18": dict(
+   text="The option grammar of util/getopt.h is a TLA+ step function (specs/text/Getopt.tla: one getopt() call per step). TLC enumerates every argument vector of length <= 3 over a 27-token alphabet for three option tables (with / without a missing-argument handler), checking that the grammar is well defined, and prints all of them; the real parser processes every one after an optreset that follows a different vector, plus random vectors to length 8, parses abandoned after 0..3 options and parses that are the first of a fresh process; TLC validates every getopt() call (option, argument, default / missing path) and the final operand index against the grammar.",
+   note="Bounded enumeration (length <= 3 exhaustively; to 8 sampled); three compiled option tables; warnings disabled (opterr = 0).",
+   technique="TLA+ grammar specification, exhaustive enumeration of inputs by TLC, trace validation of every parser call against the spec",
+   design="6/C18"),
  "C08": dict(
    text='TLC model-checks the request life cycle against every transport outcome (specs/http/HttpAbs.tla: at most one callback, none after cancel, body within the limit, oversize shape, the bound addbody relies on) and generates the structures of well-formed responses from the grammar in HttpGen.tla (1xx interim blocks shorter and longer than the final header block, three framings, chunk plans up to above the 1 MiB wait cap, optional-whitespace forms, body sizes at/below/above the limit); these are concretised to bytes and, together with structured hostile mutations (bad/huge/negative/whitespace chunk sizes, missing CRLF, NUL bytes, >64 KiB headers, 1xx floods, buffer-edge alignment of empty lines, truncation, bit flips), sent under many segmentations (down to single bytes, EAGAIN/EINTR noise, EOF/error/stall endings, connection plans, cancellation instants) to the real http.c stack in a forked ASan/UBSan/LSan child on scripted sockets; TLC validates every trace against HttpTrace.tla, whose Decode operator is the C09 oracle and whose other guards are the C08 clauses (one callback, status range, body limit, oversize shape, no leak, request bytes verbatim).',
    note="Memory safety is observed by the sanitizers on the executions the specification generates (not proved); limits below 2^31; at most 450 interim responses / 1500 chunks per response; the Python concretiser is the encoder side of the oracle.",
